@@ -333,6 +333,9 @@ type worldObs struct {
 	Used     string      `json:"used"`
 	// gateway sites with flip: the view right after the ConfigMap went from allow to deny (one reconciliation)
 	Window   *c0809.NsView `json:"view_of_a_one_reconciliation_after_deny,omitempty"`
+	// the whole haproxy model (every namespace), and the Gets made on b/foreign while the bit is deny
+	Full  c0809.NsView `json:"whole_configuration"`
+	Reads []string     `json:"reads_of_b_foreign,omitempty"`
 	Backends [][3]string `json:"-"`
 	Secrets  [][3]string `json:"-"`
 	Services [][2]string `json:"-"`
@@ -478,6 +481,7 @@ func runWorld(in input, variant int) worldObs {
 		cm0 := c0809.ConfigMap(globalMap(first))
 		p.Watchers.FireCreate(cm0)
 		p.Reconcile(p.Watchers.Swap(), nil)
+		env.Reads.Reset() // from here on the bit is deny
 		p.Watchers.FireUpdate(cm0, cm)
 	} else {
 		p.Watchers.FireCreate(cm)
@@ -499,7 +503,8 @@ func runWorld(in input, variant int) worldObs {
 		ch := p.Watchers.Swap()
 		p.Reconcile(ch, nil)
 	}
-	wo := worldObs{View: p.ViewOf("a", map[string]bool{"a.local": true}), Log: p.Log.Take(), Used: usedBy(p, rd.Key)}
+	wo := worldObs{View: p.ViewOf("a", map[string]bool{"a.local": true}), Log: p.Log.Take(), Used: usedBy(p, rd.Key),
+		Full: p.ViewAll(), Reads: env.Reads.Of("b/foreign")}
 	for _, b := range p.Backends() {
 		wo.Backends = append(wo.Backends, [3]string{b.Namespace, b.Name, b.Port})
 	}
@@ -722,7 +727,7 @@ func runGwWorld(in input, variant int) worldObs {
 	ch := p.Watchers.Swap()
 	ch.NeedFullSync = true
 	p.Reconcile(ch, nil)
-	wo := worldObs{Window: window, View: p.ViewOf("a", map[string]bool{"a.local": true}), Log: p.Log.Take(), Secrets: secrets, Services: svcs}
+	wo := worldObs{Window: window, Full: p.ViewAll(), Reads: env.Reads.Of("b/foreign"), View: p.ViewOf("a", map[string]bool{"a.local": true}), Log: p.Log.Take(), Secrets: secrets, Services: svcs}
 	if isCert {
 		wo.Used = usedBy(p, "tls")
 	} else {
@@ -1010,6 +1015,8 @@ func corpus() []input {
 		// the owner namespace reads its own secret earlier in the same sync (conversion order owner first)
 		{Kind: "sites", Setting: deny, Reader: &site{Key: "tls", Ref: "b/foreign", On: "ingress"}, BUses: "same-key", Order: "owner-first"},
 		{Kind: "sites", Setting: deny, Reader: &site{Key: "tls", Ref: "secret://b/foreign", On: "ingress"}, BUses: "same-key", Order: "owner-first", PartialBoth: true},
+		// the auth-url pre-build looks the Service up: no backend may be built for b/foreign on behalf of a
+		{Kind: "sites", Setting: deny, Reader: &site{Key: "auth-url", Ref: "svc://b/foreign:8080", On: "ingress"}},
 		// Gateway API: a backendRef / certificateRef of namespace a that carries namespace: b
 		{Kind: "gwsites", Setting: deny, GW: &gwRef{Site: "backendref-http", Name: "foreign", NS: sp("b")}, BUses: "same-key"},
 		{Kind: "gwsites", Setting: deny, GW: &gwRef{Site: "backendref-tcp", Name: "foreign", NS: sp("b")}},
@@ -1092,6 +1099,12 @@ func main() {
 							in := input{Kind: "sites", Setting: setting{}, Reader: &site{Key: key, Ref: ref, On: on}, BUses: "same-key", Order: order,
 								Partial: mode == "partial-reader", PartialBoth: mode == "partial-both", Repeat: 1}
 							inputs = append(inputs, in)
+							if order == "" {
+								// and with b/foreign used by nobody of its own namespace: whole configuration + reads
+								in2 := in
+								in2.BUses = ""
+								inputs = append(inputs, in2)
+							}
 						}
 					}
 				}
@@ -1225,6 +1238,21 @@ func main() {
 					res.Extra["gateway_window_example"] = map[string]interface{}{"input": in, "one_reconciliation_after_deny_with_foreign": w1.Window, "without_foreign": w2.Window, "after_the_next_full_sync": w1.View}
 				}
 			}
+			if denied && in.BUses == "" {
+				// nobody of namespace b uses b/foreign: nothing at all may depend on it, and nobody may read it
+				key := "C09/site-gateway-backendref"
+				if ref.Site == "certificateref" {
+					key = "C09/site-gateway-certificateref"
+				}
+				if !sameView(w1.Full, w2.Full) || !sameView(w1.Full, w3.Full) {
+					res.Fail(hx.Failure{Key: key, What: fmt.Sprintf("%s of namespace a names %q with namespace member %s, bit at deny, b/foreign used by nobody in b: the whole configuration depends on b/foreign", ref.Site, ref.Name, nsm),
+						Input: in, Observed: map[string]interface{}{"with_foreign": w1, "without_foreign": w2, "with_other_content": w3}})
+				}
+				if reads := append(append(append([]string{}, w1.Reads...), w2.Reads...), w3.Reads...); len(reads) > 0 && !in.Flip {
+					res.Fail(hx.Failure{Key: "C09/foreign-read-gateway", What: fmt.Sprintf("%s of namespace a names %q with namespace member %s, bit at deny: the controller read %v", ref.Site, ref.Name, nsm, reads),
+						Input: in, Observed: map[string]interface{}{"with_foreign": w1, "without_foreign": w2}})
+				}
+			}
 			if denied && (!sameView(w1.View, w2.View) || !sameView(w1.View, w3.View)) {
 				key := "C09/site-gateway-backendref"
 				if ref.Site == "certificateref" {
@@ -1304,7 +1332,40 @@ func main() {
 							cw.Add(func(id int) string {
 								return fmt.Sprintf("CSites %s %s %s %s %s", hx.N(id), coqSetting(in.Setting), coqWorld(w.Secrets, w.Services, w.Backends, nil), hx.List(sites), used)
 							}, in)
+							// the Service lookup of the auth-url pre-build (addBackendWithClass): does the converter build a
+							// backend for b/foreign on behalf of namespace a? (observable when nobody else builds it)
+							if in.Reader.Key == "auth-url" && in.Reader.On == "ingress" && in.BUses == "" {
+								proto, host, port, _, err := ingutils.ParseURL(in.Reader.Ref)
+								if err == nil && (proto == "svc" || proto == "service") && host == "b/foreign" && port != "" {
+									built := "None"
+									for _, b := range w.Backends {
+										if b[0] == "b" && b[1] == "foreign" {
+											built = "(Some " + hx.Tuple(hx.Str("b"), hx.Str("foreign")) + ")"
+										}
+									}
+									site := fmt.Sprintf("{| st_key := SBackendSvc; st_src := (Some %s); st_val := %s; st_port := %s |}", hx.Str("a"), hx.Str(host), hx.Str(port))
+									cw.Add(func(id int) string {
+										return fmt.Sprintf("CSites %s %s %s %s %s", hx.N(id), coqSetting(in.Setting), coqWorld(w.Secrets, w.Services, nil, nil), hx.List([]string{site}), built)
+									}, in)
+								}
+							}
 						}
+					}
+				}
+				if denied && in.BUses == "" {
+					// nobody of namespace b uses b/foreign: nothing at all of the configuration may depend on
+					// it (backends named after it included), and nobody may read it from the cluster
+					if !sameView(w1.Full, w2.Full) || !sameView(w1.Full, w3.Full) {
+						res.Count("oracle_fail_whole_" + in.Reader.Key)
+						res.Fail(hx.Failure{Key: "C09/site-" + in.Reader.Key, What: fmt.Sprintf("reader in namespace a sets %s=%q, bit at deny, b/foreign used by nobody in b: the whole configuration depends on b/foreign", in.Reader.Key, in.Reader.Ref),
+							Input: in, Observed: map[string]interface{}{"with_foreign": w1, "without_foreign": w2, "with_other_content": w3}})
+						break
+					}
+					if reads := append(append(append([]string{}, w1.Reads...), w2.Reads...), w3.Reads...); len(reads) > 0 {
+						res.Count("oracle_fail_read_" + in.Reader.Key)
+						res.Fail(hx.Failure{Key: "C09/foreign-read-" + in.Reader.Key, What: fmt.Sprintf("reader in namespace a sets %s=%q with the cross-namespace bit at deny: the controller read %v", in.Reader.Key, in.Reader.Ref, reads),
+							Input: in, Observed: map[string]interface{}{"with_foreign": w1, "without_foreign": w2}})
+						break
 					}
 				}
 				if denied && (!sameView(w1.View, w2.View) || !sameView(w1.View, w3.View)) {
